@@ -263,7 +263,7 @@ def model_line(st, v):
     return f"c11.{sh} {fr.numerator} {fr.denominator}"
 
 
-def proxy_enum_sweep(ctx):
+def proxy_enum_sweep(ctx, keyfn=None):
     """"Reading the written form returns the value written": every member of every enumeration-valued property of the
     object model (table of harness/oplab.py), assigned through the property and read back through it"""
     import enum
@@ -310,7 +310,8 @@ def proxy_enum_sweep(ctx):
                 want = p.norm(m) if p.norm else m
                 # (an int-valued enum member equals a bool or an int with the same value: compare types too)
                 if type(got) is not type(want) or got != want:
-                    ctx.fail(f"enum-readback:{p.kind}.{p.name}:{m.name}", f"{path}.{p.name} = {cls.__name__}.{m.name} reads back {got!r}", {"property": p.name, "member": m.name})
+                    key = keyfn(p, cls, m) if keyfn else f"enum-readback:{p.kind}.{p.name}:{m.name}"
+                    ctx.fail(key, f"{path}.{p.name} = {cls.__name__}.{m.name} reads back {got!r}", {"property": p.name, "member": m.name})
                 else:
                     ctx.count("proxy-enum-roundtrip")
 
@@ -423,6 +424,26 @@ def correspond(ctx):
             continue
         fac = int_facets(si)
         iv = measure_int_interval(st)
+        # what a type accepts, and what it writes, is a function of the VALUE: the same values again in reverse order (equal
+        # but differently typed values now meet in the other order: 1 before True, 2 before 2.0, 0 before False) must get
+        # the same verdict and the same text
+        vs = write_values(st, xt, si, iv, fac)
+
+        def verdict(v):
+            try:
+                return ("ok", st.to_xml(v))
+            except (TypeError, ValueError) as e:
+                return ("rejected", type(e).__name__)
+            except Exception as e:  # noqa
+                return ("raised", type(e).__name__)
+        first = [verdict(v) for v in vs]
+        second = [verdict(v) for v in reversed(vs)][::-1]
+        for v, a, b in zip(vs, first, second):
+            if a != b:
+                ctx.fail(f"history-dependent:{name}", f"{st.__name__}.to_xml({v!r}) gave {a} in one order of calls and {b} in another (an equal value of another type "
+                         f"was converted in between)", {"type": name, "value": repr(v)})
+                break
+        ctx.count("order-independence-checked")
         for v in write_values(st, xt, si, iv, fac):
             key = (name, "write", repr(v))
             if key in ctx.nontrivial:
@@ -464,6 +485,7 @@ def correspond(ctx):
                 ctx.fail(f"unreadable:{name}:{lex}", f"{st.__name__}.from_xml({lex!r}) raised {type(e).__name__} although the form is valid for {xt[1]} ({uses[0]})",
                          {"type": name, "lexical": lex})
     rejected_is_noop(ctx)
+    proxy_rejected_noop(ctx)
     out = ctx.driver.run(lines)
     for (name, v), i, m in zip(meta, impl, out):
         ctx.traces += 1
@@ -532,6 +554,94 @@ def rejected_is_noop(ctx):
                 if el.get(attr) != good:
                     ctx.fail(f"rejected-assignment-wrote:{kind}", f"{cls.__name__}.{prop} = {bv!r} raised, but the attribute {attr} changed from {good!r} to {el.get(attr)!r}",
                              {"class": cls.__name__, "prop": prop, "value": repr(bv)})
+                    break
+
+
+def proxy_rejected_noop(ctx):
+    """'every other value is rejected with TypeError or ValueError BEFORE anything is written', at the level a caller sees:
+    every out-of-domain value the property table knows, for every read/write property, assigned through the proxy; when
+    the assignment raises, every XML part of the package must be byte-for-byte what it was (setters written by hand that
+    remove or create an element first and convert the value afterwards)"""
+    import random
+
+    from lxml import etree
+
+    from harness import oplab, xmllab
+    from harness.props.c09 import build_deck
+
+    import io as _io
+    import os as _os
+
+    from pptx import Presentation
+
+    from harness.props.c12 import bare
+    for variant in ("as built", "bare"):
+        _proxy_rejected_noop(ctx, variant)
+
+
+def _proxy_rejected_noop(ctx, variant):
+    import io as _io
+    import random
+
+    from lxml import etree
+    from pptx import Presentation
+
+    from harness import oplab, xmllab
+    from harness.props.c09 import build_deck
+    from harness.props.c12 import bare
+
+    prs = build_deck()
+    if variant == "bare":
+        # no optional empty container anywhere: every setter starts from "nothing there yet"; objects are discovered on
+        # another instance of the same file (discovery itself creates containers)
+        b = _io.BytesIO(); prs.save(b)
+        data, _n = bare(b.getvalue())
+        world = oplab.discover(Presentation(_io.BytesIO(data)))
+        prs = Presentation(_io.BytesIO(data))
+    else:
+        world = oplab.discover(prs)
+    pkg = prs.part.package
+
+    def snap():
+        return {pn: etree.tostring(el) for pn, el in xmllab.xml_parts(pkg)}
+    for p in oplab.prop_table():
+        objs = world.objs.get(p.kind, [])
+        if not objs or p.bad is None:
+            continue
+        vals, seen = [], set()
+        for i in range(60):
+            try:
+                v = p.bad(random.Random(i))
+            except Exception:  # noqa
+                continue
+            if repr(v) not in seen:
+                seen.add(repr(v)); vals.append(v)
+        for (obj, path), v in [(o, v) for o in (objs if len(objs) <= 4 else [objs[0], objs[len(objs) // 2], objs[-1]]) for v in vals]:
+            # once on the object as built, once after an in-domain value was assigned (an element of the setter's own making)
+            for prime in (False, True):
+                try:
+                    live = eval(path, {"prs": prs})  # noqa: S307 - paths are produced by harness/oplab.py
+                    if prime:
+                        setattr(live, p.name, p.gen(random.Random(len(vals))))
+                except Exception:  # noqa
+                    continue
+                before = snap()
+                try:
+                    setattr(live, p.name, v)
+                    ctx.count("proxy-out-of-domain-accepted")
+                    continue
+                except (TypeError, ValueError):
+                    pass
+                except Exception as e:  # noqa
+                    ctx.count(f"proxy-out-of-domain-raised:{type(e).__name__}")
+                    continue
+                ctx.case(key=("proxy-reject-noop", p.kind, p.name, repr(v)[:30], prime))
+                ctx.count("proxy-rejected-assignments-checked")
+                after = snap()
+                changed = [pn for pn in before if after.get(pn) != before[pn]]
+                if changed:
+                    ctx.fail(f"rejected-assignment-wrote:proxy:{p.kind}.{p.name}", f"[deck {variant}] {path}.{p.name} = {v!r} was rejected, but {changed[0]} changed"
+                             + (" (after an in-domain assignment)" if prime else ""), {"property": p.name, "value": repr(v), "deck": variant})
                     break
 
 
